@@ -8,10 +8,60 @@ package scen
 // provider serves at a time, see c14_provider_tight.go),
 // "buffered-provider" (buffered.New around a sweeping provider) and
 // "dual-provider" (provider/dual.New on a real dual.DHT).
+//
+// Environment seams besides router, sender and datastores:
+//
+//   - the caller's keystore may be slow (drawn, "slow-keystore"): its Put and
+//     Delete - the calls StartProviding / StopProviding make on the caller's
+//     goroutine, or the buffering worker on its behalf - park (kind "ks").
+//     Without it no public operation of a provider ever waits for anything, so
+//     none is ever in flight at Close and the buffering worker is never busy
+//     while further operations queue up behind it. Clause: "Close ... is safe
+//     while operations are in flight: those operations finish or fail" (rules
+//     op-hang, op-panic, close-hang of c14.go) and, for the buffered wrapper,
+//     "returns only after all goroutines the instance started have exited"
+//     (close-early, close-live-call: the worker is one of them).
+//   - buffered-provider: the datastore of the operation queue may be broken
+//     from the moment Close is called (drawn, "qds-at-close"): every operation
+//     on it then either fails, or hangs - it is not answered until its context
+//     is done or a drawn time has passed. Close of the wrapper still has to
+//     stop everything it owns: the queue, the wrapped provider and its own
+//     worker ("Close on every component (... sweeping provider and its
+//     wrappers ...) returns only after all goroutines the instance started
+//     have exited", whatever its own return value: rules close-early,
+//     close-live-call, leak, close-hang of c14.go). Faults of a shutdown path
+//     are the class this exposes: a Close that gives up half-way when one of
+//     its steps reports an error.
+//   - a node without addresses ("no-self-addrs") is asked for them by every
+//     batch; the answer "none" makes the batch ask for a connectivity check,
+//     which the provider's checker only starts if none is running (a TryLock).
+//     The checker runs the node's come-back work while it still holds that
+//     lock, and the batches this work starts would reach the TryLock in the
+//     very instant the checker lets go of it: the Go scheduler then decides
+//     whether a check is started (HARNESS pitfall 3; this was the source of the
+//     rare second trace of sweeping-provider run 16201 and buffered-provider
+//     run 4404 of seed 1). The address callback is therefore a seam of its own
+//     (kind "addrs"): the batch waits there until the scheduler lets it go on,
+//     so the request for a check is made in a step of its own, never in the
+//     step in which the checker finishes.
+//
+// Timers. The provider arms timers of several kinds (retry ticker, reprovide
+// schedule, connectivity back-off, offline delay, retry sleeps of the
+// prefix-length probes); two of them that expire in the same virtual instant
+// wake their goroutines in Go-scheduler order, and two of them in one select
+// are picked at random (HARNESS pitfalls 3 and 4). Every duration this file
+// chooses - intervals, delays and the strides in which virtual time advances
+// - is therefore an odd number of milliseconds without a common factor with
+// the others, so that timers of different kinds do not meet (the reprovide
+// schedule puts the region with the empty prefix at whole multiples of the
+// interval after the start: with a round interval that instant was also a
+// tick of the retry ticker).
 
 import (
 	"context"
 	"fmt"
+	"runtime"
+	"strings"
 	"time"
 
 	dht "github.com/libp2p/go-libp2p-kad-dht"
@@ -34,16 +84,17 @@ import (
 
 func init() {
 	stub := []string{"router (stub: every GetClosestPeers parks)", "pb.MessageSender (level A: every ADD_PROVIDER parks)", "datastores (simds: operations park)", "host (simhost)", "crypto/rand (constant per run)"}
-	faults := append([]string{"fault_rpc_error", "fault_gcp_error", "probe_close_provide_inflight", "probe_close_gcp_parked", "probe_close_offline", "probe_close_online", "probe_cfg_own_keystore", "probe_cfg_no_schedule", "probe_cfg_no_host"}, c14CommonFaults...)
+	faults := append([]string{"fault_rpc_error", "fault_gcp_error", "probe_close_provide_inflight", "probe_close_gcp_parked", "probe_close_offline", "probe_close_online", "probe_cfg_own_keystore", "probe_cfg_no_schedule", "probe_cfg_no_host",
+		"probe_cfg_slow_keystore", "probe_close_op_in_keystore", "probe_cfg_no_self_addrs", "probe_batch_asked_for_addrs"}, c14CommonFaults...)
 	sim.Register(&sim.Scenario{Prop: "C14", Name: "sweeping-provider", Weight: 3, Run: func(s *sim.Sim) { runC14Provider(s, false, false) },
 		Real:   []string{"provider.New / SweepingProvider.Close (done channel, wait-group guard lock, worker pool closed before waiting, cleanup functions)", "connectivity checker", "provide/reprovide loops, batch and individual provides in flight", "keystore (default or caller-supplied)"},
 		Stub:   stub,
 		Faults: faults,
 	})
-	sim.Register(&sim.Scenario{Prop: "C14", Name: "buffered-provider", Weight: 2, Run: func(s *sim.Sim) { runC14Provider(s, true, false) },
+	sim.Register(&sim.Scenario{Prop: "C14", Name: "buffered-provider", Weight: 3, Run: func(s *sim.Sim) { runC14Provider(s, true, false) },
 		Real:   []string{"buffered.New / worker / Close (queue closed, wrapped provider closed, worker joined)", "go-dsqueue", "provider.SweepingProvider underneath"},
 		Stub:   stub,
-		Faults: append([]string{"probe_close_batch_in_worker"}, faults...),
+		Faults: append([]string{"probe_close_batch_in_worker", "probe_close_worker_busy_ops_queued", "fault_qds_error_at_close", "fault_qds_stall_at_close", "probe_qds_stall_outlasted", "probe_close_returned_error"}, faults...),
 	})
 	sim.Register(&sim.Scenario{Prop: "C14", Name: "dual-provider", Weight: 2, Run: runC14DualProvider,
 		Real:   []string{"provider/dual.New / SweepingProvider.Close (both providers in parallel, then owned keystore and datastore)", "two provider.SweepingProvider on a real dual.DHT (router = IpfsDHT.GetClosestPeers, local record = IpfsDHT.Provide)"},
@@ -63,6 +114,34 @@ func (r *c14Router) GetClosestPeers(ctx context.Context, key string) ([]peer.ID,
 	tag, ok := r.known[key]
 	if !ok {
 		tag = "rnd"
+		// Look-ups of a region exploration are labelled by the kind of batch and
+		// by the first 16 bits of their target: several batches begin to explore
+		// their regions in the same step (all regions that are due when the node
+		// comes online), and under one label their look-ups would be told apart
+		// by the order in which the goroutines happened to arrive (HARNESS
+		// pitfall 2) although they belong to different regions. The target of an
+		// exploration look-up is a function of the prefix explored (a preimage
+		// table), not a random value. The four prefix-length probes keep the
+		// common label: they are interchangeable (see c14Reader).
+		var pcs [16]uintptr
+		frames := runtime.CallersFrames(pcs[:runtime.Callers(2, pcs[:])])
+		explore, who := false, "p"
+		for {
+			fr, more := frames.Next()
+			switch {
+			case strings.Contains(fr.Function, "closestPeersToPrefix"):
+				explore = true
+			case strings.Contains(fr.Function, "batchReprovide"):
+				who = "r"
+			}
+			if !more {
+				break
+			}
+		}
+		if explore {
+			kk := simnet.KadOfKey(key)
+			tag = fmt.Sprintf("x%s%02x%02x", who, kk[0], kk[1])
+		}
 	}
 	out, cerr := r.s.Park("gcp", tag+sim.TagOf(ctx), ctx, key)
 	if cerr != nil {
@@ -77,6 +156,75 @@ func (r *c14Router) GetClosestPeers(ctx context.Context, key string) ([]peer.ID,
 	return nil, nil
 }
 
+// Durations of the provider scenarios: odd numbers of milliseconds, pairwise
+// without a common factor and without a common factor with the provider's own
+// periods (see "Timers" in the header comment).
+const (
+	c14ReprovShort  = 3607013 * time.Millisecond  // about an hour
+	c14ReprovLong   = 79201037 * time.Millisecond // about 22 hours
+	c14OfflineLong  = 7207019 * time.Millisecond  // about two hours
+	c14OfflineShort = 61007 * time.Millisecond    // about a minute
+	c14CheckEvery   = 59003 * time.Millisecond    // connectivity checks at most this often
+)
+
+// c14ProvDts: the strides of virtual time of the provider scenarios, each a
+// little longer than one class of the provider's periods (retry sleeps of a
+// second, checks and delays of a minute, the retry ticker, the short
+// reprovide interval).
+var c14ProvDts = []time.Duration{1009 * time.Millisecond, 61051 * time.Millisecond, 307093 * time.Millisecond, 3611117 * time.Millisecond}
+
+// c14ProvDrainDts: the strides of the drain phases of the provider scenarios.
+var c14ProvDrainDts = [2]time.Duration{1013 * time.Millisecond, 30011 * time.Millisecond}
+
+// c14SlowKeystore is a caller's keystore whose writes take time: Put and
+// Delete park (kind "ks") before they reach the real keystore; a call whose
+// context ends while it waits fails with the context's error, as a keystore
+// on a slow disk would.
+type c14SlowKeystore struct {
+	keystore.Keystore
+	s *sim.Sim
+}
+
+func (k *c14SlowKeystore) Put(ctx context.Context, keys ...mh.Multihash) ([]mh.Multihash, error) {
+	if _, cerr := k.s.Park("ks", "put"+sim.TagOf(ctx), ctx, nil); cerr != nil {
+		return nil, cerr
+	}
+	return k.Keystore.Put(ctx, keys...)
+}
+
+func (k *c14SlowKeystore) Delete(ctx context.Context, keys ...mh.Multihash) error {
+	if _, cerr := k.s.Park("ks", "delete"+sim.TagOf(ctx), ctx, nil); cerr != nil {
+		return cerr
+	}
+	return k.Keystore.Delete(ctx, keys...)
+}
+
+// c14NoAddrs is the address callback of a node without addresses: the batch
+// that asks waits (kind "addrs", labelled by the kind of batch) until the
+// scheduler lets it have the answer "none". See the header comment.
+func c14NoAddrs(s *sim.Sim) func() []ma.Multiaddr {
+	return func() []ma.Multiaddr {
+		who := "provide"
+		var pcs [24]uintptr
+		frames := runtime.CallersFrames(pcs[:runtime.Callers(2, pcs[:])])
+		for {
+			fr, more := frames.Next()
+			switch {
+			case strings.Contains(fr.Function, "handleReprovide"):
+				who = "scheduled"
+			case strings.Contains(fr.Function, "reprovideLateRegions"):
+				who = "late"
+			}
+			if !more {
+				break
+			}
+		}
+		s.Count("probe_batch_asked_for_addrs")
+		s.Park("addrs", who, nil, nil)
+		return nil
+	}
+}
+
 // c14ProvCfg is a drawn provider configuration.
 type c14ProvCfg struct {
 	repl                int
@@ -88,12 +236,14 @@ type c14ProvCfg struct {
 	withHost, selfAddrs bool
 	gcpFault, rpcFault  int
 	parkDS              bool
+	// slowKeystore: the caller's keystore parks its writes (c14SlowKeystore)
+	slowKeystore bool
 }
 
 func c14DrawProvCfg(s *sim.Sim) c14ProvCfg {
 	var c c14ProvCfg
 	c.repl = s.Range("repl", 1, 3)
-	c.reprovide = []time.Duration{time.Hour, 0, 22 * time.Hour}[s.Draw("reprovide", 3)]
+	c.reprovide = []time.Duration{c14ReprovShort, 0, c14ReprovLong}[s.Draw("reprovide", 3)]
 	switch s.Draw("workers", 3) {
 	case 0:
 		c.workers, c.per, c.burst = 16, 2, 1
@@ -102,7 +252,7 @@ func c14DrawProvCfg(s *sim.Sim) c14ProvCfg {
 	default:
 		c.workers, c.per, c.burst = 2, 1, 1
 	}
-	c.offlineDelay = []time.Duration{2 * time.Hour, 0, time.Minute}[s.Draw("offline-delay", 3)]
+	c.offlineDelay = []time.Duration{c14OfflineLong, 0, c14OfflineShort}[s.Draw("offline-delay", 3)]
 	c.ownKeystore = s.Chance("own-keystore", 1, 2)
 	c.ownDS = s.Chance("own-ds", 1, 2)
 	c.resume = s.Chance("resume", 1, 2)
@@ -112,6 +262,7 @@ func c14DrawProvCfg(s *sim.Sim) c14ProvCfg {
 	c.gcpFault = []int{0, 6}[s.Draw("gcp-faults", 2)]
 	c.rpcFault = []int{0, 6}[s.Draw("rpc-faults", 2)]
 	c.parkDS = s.Chance("park-ds", 1, 2)
+	c.slowKeystore = s.Chance("slow-keystore", 2, 3) && c.ownKeystore
 	return c
 }
 
@@ -137,6 +288,7 @@ func runC14Provider(s *sim.Sim, buffer, tight bool) {
 		n = s.Range("tight-peers", 3, 7)
 		cfg.repl = n
 		cfg.rpcFault = 0
+		cfg.slowKeystore = false
 		conns = s.Range("tight-conns", 1, 2)
 	}
 	u := simnet.NewUniverse(uint64(s.Draw("universe", 1<<16)), n)
@@ -161,21 +313,23 @@ func runC14Provider(s *sim.Sim, buffer, tight bool) {
 	}
 
 	f := newC14Flow(s, name)
-	f.dts = []time.Duration{time.Second, time.Minute, 5 * time.Minute, time.Hour}
+	f.dts = c14ProvDts
+	f.drainDts = c14ProvDrainDts
 	f.tickQuietOnly = true
-	if cfg.reprovide == time.Hour {
+	f.tickChunk = c14ProvDts[1]
+	if cfg.reprovide == c14ReprovShort {
 		// the reprovide cycle is reached in 5-minute strides: a single jump over
 		// the whole interval queues several regions behind one parked look-up,
 		// and which of the goroutines waiting for the worker pool wins it when it
 		// is released is the Go scheduler's
-		f.dts = []time.Duration{time.Second, time.Minute, 5 * time.Minute}
+		f.dts = c14ProvDts[:3]
 	}
 	if buffer {
 		// the reprovide cycle is the plain provider scenario's business; behind
 		// the buffering worker its start order proved not to be replayable
-		f.dts = []time.Duration{time.Second, time.Minute, 5 * time.Minute}
-		if cfg.reprovide == time.Hour {
-			cfg.reprovide = 22 * time.Hour
+		f.dts = c14ProvDts[:3]
+		if cfg.reprovide == c14ReprovShort {
+			cfg.reprovide = c14ReprovLong
 		}
 	}
 	f.answer = func(p *sim.Parked, drain bool) {
@@ -203,6 +357,12 @@ func runC14Provider(s *sim.Sim, buffer, tight bool) {
 		}
 	}
 	f.baseline()
+	// what the provider is given: the caller's keystore itself or a slow one
+	givenKS := ownKS
+	if cfg.slowKeystore {
+		s.Count("probe_cfg_slow_keystore")
+		givenKS = &c14SlowKeystore{Keystore: ownKS, s: s}
+	}
 
 	opts := []provider.Option{
 		provider.WithRouter(rt),
@@ -214,14 +374,15 @@ func runC14Provider(s *sim.Sim, buffer, tight bool) {
 		provider.WithDedicatedBurstWorkers(cfg.burst),
 		provider.WithMaxProvideConnsPerWorker(conns),
 		provider.WithOfflineDelay(cfg.offlineDelay),
-		provider.WithConnectivityCheckOnlineInterval(time.Minute),
+		provider.WithConnectivityCheckOnlineInterval(c14CheckEvery),
 		provider.WithResumeCycle(cfg.resume),
 		provider.WithSkipBootstrapReprovide(cfg.skipBoot),
 	}
 	if cfg.selfAddrs {
 		opts = append(opts, provider.WithSelfAddrs(func() []ma.Multiaddr { return u.Self.Addrs }))
 	} else {
-		opts = append(opts, provider.WithSelfAddrs(func() []ma.Multiaddr { return nil }))
+		s.Count("probe_cfg_no_self_addrs")
+		opts = append(opts, provider.WithSelfAddrs(c14NoAddrs(s)))
 	}
 	if cfg.withHost {
 		opts = append(opts, provider.WithHost(h))
@@ -230,7 +391,7 @@ func runC14Provider(s *sim.Sim, buffer, tight bool) {
 		opts = append(opts, provider.WithPeerID(u.Self.ID))
 	}
 	if ownKS != nil {
-		opts = append(opts, provider.WithKeystore(ownKS))
+		opts = append(opts, provider.WithKeystore(givenKS))
 	}
 	if cfg.ownDS {
 		opts = append(opts, provider.WithDatastore(mk("pds")))
@@ -243,10 +404,52 @@ func runC14Provider(s *sim.Sim, buffer, tight bool) {
 		panic(err)
 	}
 	var bp *buffered.SweepingProvider
+	// the datastore of the buffered wrapper's operation queue. Healthy while the
+	// workload runs (its operations do not even park: the queue's worker selects
+	// over several channels, and a worker that sits in a parked operation finds
+	// more than one of them ready when it comes back). From the moment Close is
+	// called it is healthy (0), fails every operation (1) or hangs (2): an
+	// operation is answered only when its context is done or qdsStallFor has
+	// passed since the harness first saw it.
+	var qds *simds.DS
+	qdsMode, qdsStallFor := 0, time.Duration(0)
+	qdsSeen := map[string]time.Duration{}
 	if buffer {
-		bp = buffered.New(sp, simds.New(s, "qds"),
+		qds = simds.New(s, "qds")
+		bp = buffered.New(sp, qds,
 			buffered.WithBatchSize([]int{1, 2, 1 << 10}[s.Draw("b-batch", 3)]),
-			buffered.WithIdleWriteTime([]time.Duration{time.Minute, 0, time.Second}[s.Draw("b-idle", 3)]))
+			buffered.WithIdleWriteTime([]time.Duration{60013 * time.Millisecond, 0, 1013 * time.Millisecond}[s.Draw("b-idle", 3)]))
+		qdsMode = []int{0, 1, 2, 2}[s.Draw("qds-at-close", 4)]
+		if qdsMode == 2 {
+			qdsStallFor = []time.Duration{3011 * time.Millisecond, 47017 * time.Millisecond, 181003 * time.Millisecond}[s.Draw("qds-stall", 3)]
+		}
+		isQds := func(p *sim.Parked) bool {
+			op, _ := p.Data.(*simds.Op)
+			return p.Kind == "ds" && op != nil && op.DS == qds
+		}
+		inner := f.answer
+		f.answer = func(p *sim.Parked, drain bool) {
+			if isQds(p) && qdsMode == 1 {
+				s.Count("fault_qds_error_at_close")
+				s.Release(p, simds.ErrInjected)
+				return
+			}
+			inner(p, drain)
+		}
+		if qdsMode == 2 {
+			f.stall = func(p *sim.Parked) bool {
+				if !isQds(p) {
+					return false
+				}
+				t0, ok := qdsSeen[p.ID]
+				if !ok {
+					t0 = s.Now()
+					qdsSeen[p.ID] = t0
+					s.Count("fault_qds_stall_at_close")
+				}
+				return s.Now()-t0 < qdsStallFor
+			}
+		}
 	}
 	s.Quiesce()
 	f.strict = true
@@ -261,7 +464,10 @@ func runC14Provider(s *sim.Sim, buffer, tight bool) {
 			}
 		}
 	}
-	s.Summary["cfg"] = fmt.Sprintf("%+v peers=%d buffered=%v tight=%v conns=%d", cfg, n, buffer, tight, conns)
+	s.Summary["cfg"] = fmt.Sprintf("%+v peers=%d buffered=%v tight=%v conns=%d qds=%d/%v", cfg, n, buffer, tight, conns, qdsMode, qdsStallFor)
+	if c14Debug {
+		s.Tracef("DEBUG cfg %s", s.Summary["cfg"])
+	}
 
 	type api interface {
 		StartProviding(force bool, keys ...mh.Multihash) error
@@ -310,7 +516,96 @@ func runC14Provider(s *sim.Sim, buffer, tight bool) {
 			f.client("clear", func(ctx context.Context) (any, error) { return p.Clear(), nil })
 		}
 	}
+	// queuedBehind: the caller's keystore holds a write of the instance right
+	// now, and since that write began further queueing operations (start / stop
+	// providing, provide once) have returned to their callers. Behind the
+	// buffered wrapper these are operations its worker has not taken yet.
+	ksSeen, doneAtKs := "", 0
+	nQueued := func() int {
+		n := 0
+		for _, c := range f.clients {
+			if c.started && c.op.Done && (c.name == "startproviding" || c.name == "provideonce" || c.name == "stopproviding") {
+				n++
+			}
+		}
+		return n
+	}
+	observeKS := func() {
+		ks := s.ParkedKind("ks")
+		if len(ks) == 0 {
+			ksSeen = ""
+		} else if ks[0].ID != ksSeen {
+			ksSeen, doneAtKs = ks[0].ID, nQueued()
+		}
+	}
+	f.extra = func() []sim.Action { observeKS(); return nil }
+	// The worker pool wakes all goroutines that wait for a worker when one is
+	// released and lets them race for it (a condition variable): with two
+	// waiters the Go scheduler decides which batch runs next (HARNESS pitfall
+	// 8). At most three goroutines can wait at all - the provide loop, the loop
+	// that catches up late regions, a scheduled reprovide - and each is started
+	// by an event the scheduler owns: a provide-type operation reaching the
+	// provider (the caller's call, or the slow keystore letting it go on), a
+	// successful connectivity probe (the come-back work), a timer (time only
+	// moves while nothing is parked, and a jump ends when something parks).
+	// While one goroutine waits for a worker, the first two kinds of events are
+	// held back, so that a second waiter does not appear; one waiter, and Close
+	// arriving while it waits, are generated as before.
+	waiters := func() int { return provider.VerifPoolQueued(sp) }
+	f.mayStart = func(c *c14Client) bool {
+		switch c.name {
+		case "startproviding", "provideonce":
+			if waiters() > 0 {
+				return false
+			}
+		}
+		if c.name == "provideonce" && buffer && cfg.slowKeystore {
+			// Behind the buffering worker a provide-once does not pass through the
+			// keystore: queued behind a start-providing that sits in the slow
+			// keystore, it would reach the provider in the very step in which the
+			// provide loop started by that operation looks at the queue - whether
+			// the loop still sees its key is the Go scheduler's (the old limitation
+			// of multi-key calls, see pick above). It is only started while the
+			// worker is idle.
+			return len(s.ParkedKind("ks")) == 0
+		}
+		return true
+	}
+	// the come-back work runs on the checker's goroutine from the successful
+	// probe through the prefix-length probes and the two reads of the reprovide
+	// history; its last act is to start the catch-up loop
+	comeBack := func(p *sim.Parked) bool {
+		switch p.Kind {
+		case "gcp":
+			return strings.HasPrefix(p.ID, "gcp:self") || strings.HasPrefix(p.ID, "gcp:rnd")
+		case "ds":
+			op, _ := p.Data.(*simds.Op)
+			return op != nil && op.Op == "query" && strings.Contains(op.Key, "history")
+		}
+		return false
+	}
+	f.enabled = func(p *sim.Parked) bool {
+		if p.Kind == "ks" || comeBack(p) {
+			return waiters() == 0
+		}
+		return true
+	}
+	// In two thirds of the runs that can get there, Close is aimed at the instant
+	// at which the buffering worker is busy and operations wait behind it.
+	if buffer && cfg.slowKeystore && s.Chance("aim-close-worker-busy", 2, 3) {
+		f.closeNow = func() bool { observeKS(); return ksSeen != "" && nQueued() > doneAtKs }
+	}
 	f.atClose = func() {
+		observeKS()
+		if ksSeen != "" {
+			s.Count("probe_close_op_in_keystore")
+			if buffer && nQueued() > doneAtKs {
+				s.Count("probe_close_worker_busy_ops_queued")
+			}
+		}
+		if qdsMode != 0 {
+			qds.ParkOp = func(op, key string) bool { return true }
+		}
 		addProv := false
 		for _, q := range s.ParkedKind("rpc") {
 			if r := q.Data.(*simnet.RPC); r.Req.GetType() == pb.Message_ADD_PROVIDER {
@@ -352,6 +647,21 @@ func runC14Provider(s *sim.Sim, buffer, tight bool) {
 	f.closeAt = s.Range("close-at", 0, 60)
 	f.interleave = s.Draw("interleave", 12)
 	f.run()
+	if c14Debug && f.closeOp != nil {
+		s.Tracef("DEBUG close done=%v err=%v", f.closeOp.Done, f.closeOp.Err)
+	}
+	if qdsMode != 0 && f.closeOp != nil && f.closeOp.Done && f.closeOp.Err != nil && strings.Contains(f.closeOp.Err.Error(), "not written") {
+		// the broken queue datastore cost queued operations, and the caller of
+		// Close was told (probe only; the wording is the queue's)
+		s.Count("probe_close_returned_error")
+		for _, t0 := range qdsSeen {
+			if qdsStallFor > 0 && f.closeOp.DoneAt-t0 < qdsStallFor {
+				// the wrapper stopped waiting before the datastore came back
+				s.Count("probe_qds_stall_outlasted")
+				break
+			}
+		}
+	}
 	c14Teardown(s, f, func() {
 		if ownKS != nil {
 			// the caller owns a keystore it supplied
@@ -391,7 +701,8 @@ func runC14DualProvider(s *sim.Sim) {
 	ownDS := s.Draw("own-ds", 3) // 0 none, 1 shared (namespaced), 2 separate LAN/WAN
 
 	f := newC14Flow(s, "dual-provider")
-	f.dts = []time.Duration{100 * time.Millisecond, time.Second, time.Minute}
+	f.dts = []time.Duration{101 * time.Millisecond, 1009 * time.Millisecond, 61051 * time.Millisecond}
+	f.drainDts = c14ProvDrainDts
 	f.tickQuietOnly = true
 	f.answer = w.answer
 	var dss []*simds.DS
@@ -442,9 +753,9 @@ func runC14DualProvider(s *sim.Sim) {
 	}
 
 	popts := []dualprov.Option{
-		dualprov.WithReprovideInterval([]time.Duration{22 * time.Hour, 0}[s.Draw("reprovide", 2)]),
+		dualprov.WithReprovideInterval([]time.Duration{c14ReprovLong, 0}[s.Draw("reprovide", 2)]),
 		dualprov.WithMaxProvideConnsPerWorker(8),
-		dualprov.WithOfflineDelay([]time.Duration{2 * time.Hour, 0}[s.Draw("offline-delay", 2)]),
+		dualprov.WithOfflineDelay([]time.Duration{c14OfflineLong, 0}[s.Draw("offline-delay", 2)]),
 		dualprov.WithResumeCycle(s.Chance("resume", 1, 2)),
 	}
 	if ownKS != nil {
